@@ -420,6 +420,7 @@ def c14(tier):
     uw.uw5(P, C)
     uw.uw6(P, C)
     uw.uw7(P, C)
+    uw.uw8(P, C)
     uw.vg4(P, C)
     ts.ts2(P, C, only=("convolve",), rule_floor=1)
     cw.cw1(P, C, only=("splinetable_convolve",))
